@@ -389,6 +389,27 @@ def rule_r2_r3(rep, program: Program):
             if p in DERIVABLE_OPTIONAL and p not in ("sign",):
                 continue
             r3.violate(PROP, f"{eqm.qualname}:missing:{p}[{k.name}]", f"{k.name}: the dense array depends on constructor parameter `{p}` but `{eqm.qualname}` does not compare it: two objects that differ only in `{p}` compare equal although their arrays differ", node=eqm.node, file=eqm.file)
+        # equality / hash must be functions of the constructor parameters only: a slot that is filled
+        # lazily (None until some property is first requested) makes them depend on evaluation history
+        lazy = set()
+        for c in k.mro:
+            for mname, mf in c.methods.items():
+                if mname == "__init__":
+                    continue
+                for n in ast.walk(mf.node):
+                    if isinstance(n, ast.Assign):
+                        for t in n.targets:
+                            for tt in (t.elts if isinstance(t, ast.Tuple) else [t]):
+                                if is_self_attr(tt):
+                                    lazy.add(tt.attr)
+        for fn_name in ("_check_equality", "_compute_hash"):
+            fn = k.resolve(fn_name)
+            if fn is None:
+                continue
+            raw = sorted({n.attr for n in ast.walk(fn.node) if isinstance(n, ast.Attribute) and n.attr in lazy and isinstance(n.value, ast.Name)})
+            r3.inst({"class": k.name, "function": fn.qualname, "lazy slots read directly": raw})
+            for a in raw:
+                r3.violate(PROP, f"{fn.qualname}:reads-lazy-slot:{a}[{k.name}]", f"{fn.qualname} reads the slot `{a}` directly; that slot stays None until a property is first requested and is filled afterwards, so two matrices with equal parameters compare {'unequal' if fn_name == '_check_equality' else 'with different hashes'} depending on which properties were evaluated first (and copies stop equalling their originals)", node=fn.node, file=fn.file)
         hm = k.resolve("_compute_hash")
         extra = {p for p in h_params - e_params if p not in DERIVABLE_OPTIONAL}
         for p in sorted(extra):
